@@ -1339,7 +1339,11 @@ def simplify(case: dict):  # noqa: ANN201
     """After ddmin over the ops: pin the case to single crash points (the runner keeps a candidate if the key survives)."""
     if case.get("scenario") in ("strace",) or isinstance(case.get("crash"), list):
         return
-    res = execute(dict(case, scenario="pinned", crash="all", recovery="none" if case.get("scenario") == "selfkill" else "all"))
+    big = len(_flat(case.get("ops", []))) > 24      # (a long workload has thousands of first x second crash points: keep it bounded)
+    if big and isinstance(case.get("crash"), dict):
+        return
+    res = execute(dict(case, scenario="pinned", crash="all",
+                       recovery="none" if case.get("scenario") == "selfkill" or big else "all"))
     for second in (True, False):          # first-crash-only candidates last: the runner keeps the last one that still fails
         for v in res.get("violations", []):
             specs = [sp for sp in v.get("crash_points", []) if isinstance(sp, list) == second]
